@@ -2,4 +2,6 @@ From Coq Require Import Extraction ExtrOcamlBasic QArith.
 From BCT Require Import Model.Core.
 Extraction Language OCaml.
 (* coqc runs with cwd = /verif/coq *)
-Extraction "../ocaml/gen/c15_model.ml" run_core run_coreness Qred Z.add.
+(* run_core_py / run_coreness_py: the routines as called (peel argument, both return shapes, default 2-tuple path);
+   equal to run_core / run_coreness by C15_peel_flag / C15_kcoreness_default_path *)
+Extraction "../ocaml/gen/c15_model.ml" run_core_py run_coreness_py Qred Z.add.
